@@ -80,3 +80,11 @@ PROPS['C19'] = {
     'require': {'transcript.cases_compared': 10000, 'allwords.decoded': 40960, 'forms.ideographic_space': 1000, 'ops.crypt.spanish': 20, 'ops.crypt.hangul': 20},
     'assumptions': ['char signedness is varied with -fsigned-char / -funsigned-char on x86-64 gcc; other ABI differences of ARM/PowerPC targets are not reproduced'],
 }
+
+PROPS['C08'] = {
+    'level': 'exploration',
+    'exhaustive_possible': True,
+    'runs': [{'name': 'asan', 'flavour': 'asan', 'driver': 'drv_c08', 'timeout': 1800}],
+    'require': {'words.swept': 2048 * 3 + 7 * 512, 'tokens.prefix.en.accepted': 2500, 'tokens.prefix.en.rejected': 5000,
+                'tokens.accent-terminated-prefix.es.accepted': 100, 'tokens.foreign-letter-inserted.fr.rejected': 1000, 'mixed.permitted.OK': 10000},
+}
